@@ -155,7 +155,7 @@ Print Assumptions sum_result_fill_right.
 (* ---- "right at every position (fill included) or ValueError" for the operations C07 does not model itself, closed
    BY CITATION of the den-level theorems of the properties that own them (Proofs/FillCitesP.v; only Proofs files of
    the other developments are imported).  Model/FillRules.v:fill_discharge records, for every PUBLIC row of the
-   generated table, what discharges it: ByGuard (22 rows), ByCite (91), CampaignOnly (36), NotApplicable (42). *)
+   generated table, what discharges it: ByGuard (22 rows), ByCite (95), CampaignOnly (36), NotApplicable (42). *)
 From Verif Require FillCitesP.
 From Verif Require Elemwise Reduce NpReduce Join NpJoin JoinP Convert NpIndex CooIndex CooIndexNormP CooIndexP
   ShapeOps NpShapeOps ShapeOpsP.
@@ -222,7 +222,7 @@ Theorem fill_right_conversion :
   forall (V : Type) (veqb : V -> V -> bool), (forall a b, veqb a b = true <-> a = b) ->
   forall (add : V -> V -> V) (c0 : COO.coo V) (hops : list Convert.fmt),
     COOP.canonical V c0 -> Shape.shape_ok (COO.c_shape c0) ->
-    forallb (Convert.hop_okb (COO.c_shape c0)) hops = true -> Convert.dok0d_clause (COO.c_shape c0) hops = true ->
+    forallb (Convert.hop_okb (COO.c_shape c0)) hops = true ->
     exists r, Convert.run_chain veqb add (Convert.RCoo c0) hops = Ok r
       /\ Convert.fill_r r = COO.c_fill c0
       /\ forall ix, Shape.in_range (COO.c_shape c0) ix -> Convert.den_r r ix = COO.den c0 ix.
